@@ -277,7 +277,7 @@ ghost('level_aligned', ['g', 'l'], """
 contract(G + 'TileGrid.supports_access_with_origin', props=['C03', 'C02'],
          types=dict(origin='str'), returns='bool',
          requires=['grid_wf(self)'],
-         raises={'ValueError': True},
+         raises={'ValueError': "str_lower(origin) != 'll' and str_lower(origin) != 'sw' and str_lower(origin) != 'ul' and str_lower(origin) != 'nw'"},
          ensures=[
              # offered  =>  same numbering, or on EVERY level the tile rows end exactly at the grid bbox,
              # which is what makes flipping preserve the ground rectangle (lemma flip_preserves_bbox)
